@@ -365,18 +365,51 @@ pub struct ReinitCase {
     pub late: bool,
 }
 
-struct InitOn<'a, DI> {
-    di: &'a mut DI,
-    cfg: &'a Config,
-    w: &'a W,
+pub struct InitOn<'a, DI> {
+    pub di: &'a mut DI,
+    pub cfg: &'a Config,
+    pub w: &'a W,
+    /// what the display does after a successful init, before it is dropped (0 = nothing): see `use_display`
+    pub usage: u8,
 }
 
-fn init_on<DI, M>(di: &mut DI, m: M, cfg: &Config, w: &W) -> Result<(), String>
+/// a little drawing between two inits over one interface object; every variant ends with a different
+/// kind of transfer (nothing, an empty pixel stream, one pixel, a solid fill, a command)
+fn use_display<DI, M, RST>(d: &mut mipidsi::Display<DI, M, RST>, usage: u8) -> Result<(), String>
 where
     DI: mipidsi::interface::Interface,
     DI::Error: core::fmt::Debug,
     M: mipidsi::models::Model,
-    M::ColorFormat: mipidsi::interface::InterfacePixelFormat<DI::Word>,
+    M::ColorFormat: mipidsi::interface::InterfacePixelFormat<DI::Word> + embedded_graphics_core::pixelcolor::RgbColor,
+    RST: embedded_hal::digital::OutputPin,
+{
+    use embedded_graphics_core::pixelcolor::RgbColor;
+    let e = |e: DI::Error| format!("{:?}", e);
+    match usage {
+        0 => Ok(()),
+        1 => d.set_pixels(0, 0, 0, 0, core::iter::empty()).map_err(e),
+        2 => d.set_pixel(0, 0, M::ColorFormat::GREEN).map_err(e),
+        3 => {
+            d.set_pixel(0, 0, M::ColorFormat::WHITE).map_err(e)?;
+            d.set_pixels(0, 0, 0, 0, core::iter::empty()).map_err(e)
+        }
+        4 => {
+            use embedded_graphics_core::draw_target::DrawTarget;
+            d.clear(M::ColorFormat::BLACK).map_err(e)
+        }
+        _ => {
+            d.set_pixels(0, 0, 0, 0, core::iter::empty()).map_err(e)?;
+            d.set_vertical_scroll_offset(3).map_err(e)
+        }
+    }
+}
+
+fn init_on<DI, M>(di: &mut DI, m: M, cfg: &Config, w: &W, usage: u8) -> Result<(), String>
+where
+    DI: mipidsi::interface::Interface,
+    DI::Error: core::fmt::Debug,
+    M: mipidsi::models::Model,
+    M::ColorFormat: mipidsi::interface::InterfacePixelFormat<DI::Word> + embedded_graphics_core::pixelcolor::RgbColor,
 {
     use mipidsi::options::*;
     let mut clk = crate::rig::Clock { w: w.clone() };
@@ -392,9 +425,11 @@ where
         ));
     let r = std::panic::catch_unwind(std::panic::AssertUnwindSafe(|| {
         if cfg.reset_pin {
-            b.reset_pin(crate::rig::pin(w, Src::Rst)).init(&mut clk).map(|_| ()).map_err(|e| format!("{:?}", e))
+            let mut d = b.reset_pin(crate::rig::pin(w, Src::Rst)).init(&mut clk).map_err(|e| format!("{:?}", e))?;
+            use_display(&mut d, usage)
         } else {
-            b.init(&mut clk).map(|_| ()).map_err(|e| format!("{:?}", e))
+            let mut d = b.init(&mut clk).map_err(|e| format!("{:?}", e))?;
+            use_display(&mut d, usage)
         }
     }));
     w.borrow_mut().flush();
@@ -415,7 +450,7 @@ where
         M: mipidsi::models::Model + 'static,
         M::ColorFormat: crate::models::HColor + mipidsi::interface::InterfacePixelFormat<u8>,
     {
-        init_on(self.di, m, self.cfg, self.w)
+        init_on(self.di, m, self.cfg, self.w, self.usage)
     }
 }
 
@@ -429,7 +464,7 @@ where
     where
         M: mipidsi::models::Model<ColorFormat = embedded_graphics_core::pixelcolor::Rgb565> + 'static,
     {
-        init_on(self.di, m, self.cfg, self.w)
+        init_on(self.di, m, self.cfg, self.w, self.usage)
     }
 }
 
@@ -457,20 +492,20 @@ pub fn check_reinit(c: &ReinitCase, info: &mut CaseInfo) -> Result<(), String> {
         Transport::Spi { buf } => {
             let mut buffer = vec![0xA5u8; buf as usize];
             let mut di = SpiInterface::new(SpiDev { w: w.clone() }, pin(&w, Src::Dc), &mut buffer[..]);
-            let r1 = run(true, &w, &mut || dispatch_model(cfg.model, InitOn { di: &mut di, cfg, w: &w }));
-            let r2 = run(false, &w, &mut || dispatch_model(cfg.model, InitOn { di: &mut di, cfg, w: &w }));
+            let r1 = run(true, &w, &mut || dispatch_model(cfg.model, InitOn { di: &mut di, cfg, w: &w, usage: 0 }));
+            let r2 = run(false, &w, &mut || dispatch_model(cfg.model, InitOn { di: &mut di, cfg, w: &w, usage: 0 }));
             (r1, r2)
         }
         Transport::Par8 => {
             let mut di = ParallelInterface::new(Generic8BitBus::new(pins8(&w)), pin(&w, Src::Dc), pin(&w, Src::Wr));
-            let r1 = run(true, &w, &mut || dispatch_model(cfg.model, InitOn { di: &mut di, cfg, w: &w }));
-            let r2 = run(false, &w, &mut || dispatch_model(cfg.model, InitOn { di: &mut di, cfg, w: &w }));
+            let r1 = run(true, &w, &mut || dispatch_model(cfg.model, InitOn { di: &mut di, cfg, w: &w, usage: 0 }));
+            let r2 = run(false, &w, &mut || dispatch_model(cfg.model, InitOn { di: &mut di, cfg, w: &w, usage: 0 }));
             (r1, r2)
         }
         Transport::Par16 => {
             let mut di = ParallelInterface::new(Generic16BitBus::new(pins16(&w)), pin(&w, Src::Dc), pin(&w, Src::Wr));
-            let r1 = run(true, &w, &mut || dispatch_model565(cfg.model, InitOn { di: &mut di, cfg, w: &w }).unwrap_or(Err("HARNESS: not a 565 model".into())));
-            let r2 = run(false, &w, &mut || dispatch_model565(cfg.model, InitOn { di: &mut di, cfg, w: &w }).unwrap_or(Err("HARNESS: not a 565 model".into())));
+            let r1 = run(true, &w, &mut || dispatch_model565(cfg.model, InitOn { di: &mut di, cfg, w: &w, usage: 0 }).unwrap_or(Err("HARNESS: not a 565 model".into())));
+            let r2 = run(false, &w, &mut || dispatch_model565(cfg.model, InitOn { di: &mut di, cfg, w: &w, usage: 0 }).unwrap_or(Err("HARNESS: not a 565 model".into())));
             (r1, r2)
         }
         _ => return Err("HARNESS: re-init needs a pin-level transport".into()),
@@ -486,6 +521,46 @@ pub fn check_reinit(c: &ReinitCase, info: &mut CaseInfo) -> Result<(), String> {
     super::c11::judge_panel(&wb, cfg).map_err(|e| format!("second init over the same interface after a failure at operation {}: {}", c.k, e))?;
     super::c11::judge_reset(&wb, cfg, &trace).map_err(|e| format!("second init over the same interface after a failure at operation {}: {}", c.k, e))?;
     Ok(())
+}
+
+/// Two fault-free inits over one interface object (handed to the builder as `&mut interface`), with a
+/// little drawing after the first one. Returns the trace of the second init; the world holds its
+/// observations (reset log, first bus word, panel state).
+pub fn reinit_after_use(cfg: &Config, w: &W, usage: u8) -> Result<Vec<crate::panel::Tr>, String> {
+    use crate::models::{dispatch_model, dispatch_model565};
+    use crate::rig::{pin, pins16, pins8, SpiDev};
+    use mipidsi::interface::{Generic16BitBus, Generic8BitBus, ParallelInterface, SpiInterface};
+    w.borrow_mut().latch_on = true;
+    let second = |w: &W| w.borrow_mut().begin_epoch();
+    let (r1, r2) = match cfg.transport {
+        Transport::Spi { buf } => {
+            let mut buffer = vec![0xA5u8; buf as usize];
+            let mut di = SpiInterface::new(SpiDev { w: w.clone() }, pin(w, Src::Dc), &mut buffer[..]);
+            let r1 = dispatch_model(cfg.model, InitOn { di: &mut di, cfg, w, usage });
+            second(w);
+            let r2 = dispatch_model(cfg.model, InitOn { di: &mut di, cfg, w, usage: 0 });
+            (r1, r2)
+        }
+        Transport::Par8 => {
+            let mut di = ParallelInterface::new(Generic8BitBus::new(pins8(w)), pin(w, Src::Dc), pin(w, Src::Wr));
+            let r1 = dispatch_model(cfg.model, InitOn { di: &mut di, cfg, w, usage });
+            second(w);
+            let r2 = dispatch_model(cfg.model, InitOn { di: &mut di, cfg, w, usage: 0 });
+            (r1, r2)
+        }
+        Transport::Par16 => {
+            let mut di = ParallelInterface::new(Generic16BitBus::new(pins16(w)), pin(w, Src::Dc), pin(w, Src::Wr));
+            let r1 = dispatch_model565(cfg.model, InitOn { di: &mut di, cfg, w, usage }).unwrap_or(Err("HARNESS: not a 565 model".into()));
+            second(w);
+            let r2 = dispatch_model565(cfg.model, InitOn { di: &mut di, cfg, w, usage: 0 }).unwrap_or(Err("HARNESS: not a 565 model".into()));
+            (r1, r2)
+        }
+        _ => return Err("HARNESS: re-init needs a pin-level transport".into()),
+    };
+    r1.map_err(|e| format!("first init / use of the display failed: {}", e))?;
+    r2.map_err(|e| format!("second init over the same interface failed: {}", e))?;
+    let wb = w.borrow();
+    Ok(wb.panel.trace.clone())
 }
 
 fn reinit_cases(models: &[ModelId], transports: &[Transport]) -> Result<Vec<ReinitCase>, String> {
